@@ -124,6 +124,13 @@ func (c *vCase) Violated() bool {
 	return len(c.res.Violations) > 0
 }
 
+// Stopped reports whether the case already has a verdict other than "held".
+func (c *vCase) Stopped() bool {
+	c.mu.Lock()
+	defer c.mu.Unlock()
+	return len(c.res.Violations) > 0 || c.res.Inconclusive != ""
+}
+
 func (c *vCase) Inconclusive(format string, args ...any) {
 	c.mu.Lock()
 	defer c.mu.Unlock()
